@@ -4,7 +4,8 @@
    nil nilable, maps with their members in key order, interface{} = nil). *)
 From Coq Require Import NArith ZArith List Bool Arith Lia.
 From GJ Require Import Base.Bytes Base.Word64 Gen.Tables Gen.Swar Spec.Json Model.Int Model.StrEnc Model.StrDec Model.Enc Model.Decode Model.EncTyped
-  Proofs.WordP Proofs.IntEncP Proofs.IntDecP Proofs.IntScanP Proofs.StrBodyP Proofs.StrDecP Proofs.DecodeP.
+  Proofs.WordP Proofs.IntEncP Proofs.IntDecP Proofs.IntScanP Proofs.StrBodyP Proofs.StrDecP Proofs.DecodeP
+  Model.Base64 Proofs.Base64P Proofs.Base64JsonP.
 From GJ Require Properties.C17.
 Import ListNotations.
 Open Scope N_scope.
@@ -97,8 +98,21 @@ Fixpoint rt (t : ty) (v : gv) : bool :=
          | (_, ft) :: fr, x :: lr => rt ft x && all fr lr
          | _, _ => false
          end) fs l
+  | TBytes, VNil => true
+  | TBytes, VSlice l => forallb (fun x => match x with VInt z => (0 <=? z)%Z && (z <? 256)%Z | _ => false end) l
   | _, _ => false
   end.
+
+(* a byte slice as a value: the bytes it holds, and back *)
+Definition bytes_of (l : list gv) : list N := map (fun x => match x with VInt z => Z.to_N z | _ => 0 end) l.
+Lemma bytes_of_ok l : forallb (fun x => match x with VInt z => (0 <=? z)%Z && (z <? 256)%Z | _ => false end) l = true ->
+  Forall (fun b => b < 256) (bytes_of l) /\ map (fun x => VInt (Z.of_N x)) (bytes_of l) = l.
+Proof.
+  induction l as [|x l IH]; intro H; [split; [constructor|reflexivity]|].
+  cbn [forallb] in H. apply andb_true_iff in H. destruct H as [Hx Hl]. destruct (IH Hl) as [A B].
+  destruct x; try discriminate Hx. apply andb_true_iff in Hx. destruct Hx as [H0 H1]. apply Z.leb_le in H0. apply Z.ltb_lt in H1.
+  cbn [bytes_of map]. split; [constructor; [lia|exact A]|]. fold (bytes_of l). rewrite B. rewrite Z2N.id by lia. reflexivity.
+Qed.
 
 Fixpoint fields_rt (fs : list (list N * ty)) (l : list gv) : bool :=
   match fs, l with
@@ -129,7 +143,7 @@ Proof. induction l as [|y r IH]; intros H; [destruct H|]. cbn [fold_right]. dest
 (* a value that is written as something else than null *)
 Lemma encj_not_null t v : rt t v = true -> is_vnil v = false -> is_null (encj t v) = false.
 Proof.
-  revert v. induction t as [ |bits|bits| | |e IH|e IH|n e IH|e IH|fs]; intros v Hr Hn; destruct v; try discriminate Hr; try discriminate Hn; try reflexivity.
+  revert v. induction t as [ |bits|bits| | |e IH|e IH|n e IH|e IH|fs| ]; intros v Hr Hn; destruct v; try discriminate Hr; try discriminate Hn; try reflexivity.
   - cbn [encj]. destruct b; reflexivity.
   - cbn [rt] in Hr. apply andb_true_iff in Hr. destruct Hr as [Hv Hr]. cbn [encj]. apply IH; [exact Hr|]. apply negb_true_iff. exact Hv.
 Qed.
@@ -272,7 +286,7 @@ Theorem round_trip_n : forall n v, (vn v <= n)%nat -> forall t, rt t v = true ->
 Proof.
   induction n as [|n IH]; intros v Hn t Hr f Hf; [destruct v; cbn in Hn; lia|].
   destruct f as [|f]; [destruct v; cbn in Hf; lia|].
-  destruct t as [ |bits|bits| | |e|e|k e|e|fs]; destruct v as [ |b|z|s|x|l|l|l|l|g]; try discriminate Hr; cbn [rt] in Hr.
+  destruct t as [ |bits|bits| | |e|e|k e|e|fs| ]; destruct v as [ |b|z|s|x|l|l|l|l|g]; try discriminate Hr; cbn [rt] in Hr.
   - (* bool *) cbn [encj dec]. destruct b; reflexivity.
   - (* int *) apply andb_true_iff in Hr. destruct Hr as [Hw Hr]. cbn [encj dec is_null]. rewrite (int_round_trip bits z Hw Hr). reflexivity.
   - (* uint *) apply andb_true_iff in Hr. destruct Hr as [Hw Hr]. cbn [encj dec is_null]. rewrite (uint_round_trip bits z Hw Hr). reflexivity.
@@ -303,6 +317,11 @@ Proof.
     rewrite encj_struct. cbn [dec is_null]. cbn [vn] in Hn, Hf. cbn [zero].
     pose proof (struct_back (dec f) fs Hnd Hcl fs l [] [] eq_refl eq_refl Hlen) as SB. cbn [app] in SB. rewrite SB; [reflexivity|].
     intros k' ft x Hin. pose proof (vn_in x l (vn_combine fs l k' ft x Hin)) as Hle. apply (IH x ltac:(lia) ft (Hc k' ft x Hin) f). lia.
+  - (* nil byte slice *) reflexivity.
+  - (* byte slice: base64 there and back *) destruct (bytes_of_ok l Hr) as [Hb Hm].
+    cbn [encj dec is_null]. fold (bytes_of l).
+    pose proof (b64_json_round_trip (bytes_of l) Hb) as E. destruct (unq (b64enc (bytes_of l))) as [s0|]; [|discriminate E].
+    rewrite E, Hm. reflexivity.
 Qed.
 
 Theorem round_trip t v : rt t v = true -> forall f, (vn v <= f)%nat -> dec f t (encj t v) (zero t) = DOk v.
@@ -340,7 +359,7 @@ Qed.
 Theorem encj_wfp_n : forall n v, (vn v <= n)%nat -> forall t, rt t v = true -> wfp (encj t v) = true.
 Proof.
   induction n as [|n IH]; intros v Hn t Hr; [destruct v; cbn in Hn; lia|].
-  destruct t as [ |bits|bits| | |e|e|k e|e|fs]; destruct v as [ |b|z|s|x|l|l|l|l|g]; try discriminate Hr; cbn [rt] in Hr; try reflexivity.
+  destruct t as [ |bits|bits| | |e|e|k e|e|fs| ]; destruct v as [ |b|z|s|x|l|l|l|l|g]; try discriminate Hr; cbn [rt] in Hr; try reflexivity.
   - cbn [encj wfp leaf_ok]. destruct b; reflexivity.
   - apply andb_true_iff in Hr. destruct Hr as [Hw Hr]. cbn [encj wfp leaf_ok]. exact (int_leaf bits z Hw Hr).
   - apply andb_true_iff in Hr. destruct Hr as [Hw Hr]. cbn [encj wfp leaf_ok]. exact (uint_leaf bits z Hw).
@@ -360,6 +379,8 @@ Proof.
     apply andb_true_iff in Hr. destruct Hr as [Hr Hfr]. apply andb_true_iff in Hr. destruct Hr as [_ Hcl].
     destruct (fields_rt_combine fs l Hfr) as [_ Hc]. rewrite encj_struct. cbn [wfp]. cbn [vn] in Hn.
     apply fields_j_wfp; [exact Hcl|]. intros k' ft x Hin. pose proof (vn_in x l (vn_combine fs l k' ft x Hin)) as Hle. apply (IH x ltac:(lia) ft (Hc k' ft x Hin)).
+  - destruct (bytes_of_ok l Hr) as [Hb _]. cbn [encj wfp leaf_ok]. fold (bytes_of l).
+    destruct (plain_body_ok false _ (b64_text_is_plain (bytes_of l) Hb)) as [B _]. exact (body_ok_strbody false _ B).
 Qed.
 
 Lemma wfp_strip_n : forall n v, (size v <= n)%nat -> wfp v = true -> strip v = v.
